@@ -153,6 +153,7 @@ type Universe struct {
 	times     []timeEntry
 	numRev    map[string]V // "i:<bits>" -> abstract
 	timeStr   map[string]V // RFC 3339 text -> ["timestr", ord, zone]
+	soonOrd   int          // position of the dynamic instant of the "soon" table (0: none)
 }
 
 func NewUniverse(numTable, timeTable string) *Universe {
@@ -172,6 +173,12 @@ func NewUniverse(numTable, timeTable string) *Universe {
 		u.times = timeTableGeneral
 	case "wide":
 		u.times = timeTableWide
+	case "soon":
+		// the general table plus one instant that lies a moment ahead of the wall clock when it is first
+		// used (an _expiresAt about to pass); it sorts after every past entry and before 2100
+		u.times = append([]timeEntry{}, timeTableGeneral[:len(timeTableGeneral)-1]...)
+		u.soonOrd = len(u.times)
+		u.times = append(u.times, timeEntry{name: "soon"}, timeTableGeneral[len(timeTableGeneral)-1])
 	default:
 		panic("unknown time table " + timeTable)
 	}
@@ -202,6 +209,9 @@ func NewUniverse(numTable, timeTable string) *Universe {
 }
 
 func (u *Universe) timeOf(ord, zone int) time.Time {
+	if u.soonOrd > 0 && ord == u.soonOrd && u.times[ord].t.IsZero() {
+		u.times[ord].t = time.Now().Add(1500 * time.Millisecond).Truncate(time.Millisecond).UTC()
+	}
 	t := u.times[ord].t
 	if zone == 0 {
 		return t.UTC()
